@@ -1,7 +1,8 @@
 ---------------------------- MODULE MCBlockTable ----------------------------
 (***************************************************************************)
 (* All histories up to MaxOps over three table slots and a pool of values: *)
-(* add, clear, copy (construction and assignment onto a live table),       *)
+(* add, addv (add_value: append without de-duplication, as the reader      *)
+(* does), clear, copy (construction and assignment onto a live table),     *)
 (* destroy.  After every step the Impl tables must agree with the Abs      *)
 (* tables kept side by side (C11: indices returned, no duplicates,         *)
 (* stability; C19: a copy behaves like a fresh table with the same         *)
@@ -11,14 +12,15 @@ EXTENDS BlockTable, Json, IOUtils
 
 CONSTANTS MaxOps, Vals, Emit
 
-VARIABLES heap, abs, hist, lastIdx, lastAbs, ub
-vars == <<heap, abs, hist, lastIdx, lastAbs, ub>>
+CONSTANT WithAddValue
+VARIABLES heap, abs, hist, lastIdx, lastAbs, ub, raw      \* raw[t]: the table received a value through add_value
+vars == <<heap, abs, hist, lastIdx, lastAbs, ub, raw>>
 
 Slots == {1, 2, 3}
 
 MCInit == /\ heap = [t \in Slots |-> IF t = 1 THEN NewTable ELSE [NewTable EXCEPT !.alive = FALSE]]
           /\ abs = [t \in Slots |-> <<>>]
-          /\ hist = <<>> /\ lastIdx = -1 /\ lastAbs = -1 /\ ub = FALSE
+          /\ hist = <<>> /\ lastIdx = -1 /\ lastAbs = -1 /\ ub = FALSE /\ raw = [t \in Slots |-> FALSE]
 
 DoAdd(t, v) ==
     /\ heap[t].alive
@@ -28,27 +30,42 @@ DoAdd(t, v) ==
           /\ abs' = [abs EXCEPT ![t] = a.items]
           /\ lastIdx' = r.idx /\ lastAbs' = a.idx
     /\ hist' = Append(hist, [op |-> "add", t |-> t, v |-> v])
+    /\ UNCHANGED raw
+
+DoAddValue(t, v) ==
+    /\ WithAddValue /\ heap[t].alive
+    /\ LET r == ImplAddValue(heap, t, v)
+           a == AbsAddValue(abs[t], v)
+       IN /\ heap' = r.heap /\ ub' = (ub \/ r.ub)
+          /\ abs' = [abs EXCEPT ![t] = a.items]
+          /\ lastIdx' = r.idx /\ lastAbs' = a.idx
+    /\ raw' = [raw EXCEPT ![t] = TRUE]
+    /\ hist' = Append(hist, [op |-> "addv", t |-> t, v |-> v])
 
 DoClear(t) ==
     /\ heap[t].alive
     /\ heap' = ImplClear(heap, t) /\ abs' = [abs EXCEPT ![t] = <<>>]
     /\ hist' = Append(hist, [op |-> "clear", t |-> t])
+    /\ raw' = [raw EXCEPT ![t] = FALSE]
     /\ UNCHANGED <<lastIdx, lastAbs, ub>>
 
 DoCopy(s, d) ==
     /\ s # d /\ heap[s].alive
     /\ heap' = ImplCopy(heap, s, d) /\ abs' = [abs EXCEPT ![d] = abs[s]]
     /\ hist' = Append(hist, [op |-> "copy", src |-> s, dst |-> d])
+    /\ raw' = [raw EXCEPT ![d] = raw[s]]
     /\ UNCHANGED <<lastIdx, lastAbs, ub>>
 
 DoDestroy(t) ==
     /\ heap[t].alive /\ \E u \in Slots \ {t} : heap[u].alive
     /\ heap' = ImplDestroy(heap, t) /\ abs' = [abs EXCEPT ![t] = <<>>]
     /\ hist' = Append(hist, [op |-> "destroy", t |-> t])
+    /\ raw' = [raw EXCEPT ![t] = FALSE]
     /\ UNCHANGED <<lastIdx, lastAbs, ub>>
 
 MCNext == /\ Len(hist) < MaxOps
           /\ \/ \E t \in Slots : \E v \in Vals : DoAdd(t, v)
+             \/ \E t \in Slots : \E v \in Vals : DoAddValue(t, v)
              \/ \E t \in Slots : DoClear(t)
              \/ \E s \in Slots : \E d \in Slots : DoCopy(s, d)
              \/ \E t \in Slots : DoDestroy(t)
@@ -57,7 +74,10 @@ MCSpec == MCInit /\ [][MCNext]_vars
 C19_NoUB       == ~ub
 C11_AddReturns == ub \/ lastIdx = lastAbs
 C11_Content    == ub \/ \A t \in Slots : heap[t].alive => heap[t].items = abs[t]
-C11_NoDup      == \A t \in Slots : NoDup(abs[t])
+C11_NoDup      == \A t \in Slots : raw[t] \/ NoDup(abs[t])          \* tables filled by add alone hold no value twice
+(* every lookup structure agrees with the content: each stored value is found at its last position *)
+C19_IndexOK    == ub \/ \A t \in Slots : heap[t].alive =>
+                           \A i \in 1..Len(abs[t]) : ImplFind(heap, t, abs[t][i]).idx = PosOf(abs[t], abs[t][i])
 (* indices stay valid and keep denoting the same value until the table is cleared / overwritten *)
 C11_Stable     == [][\A t \in Slots : (heap[t].alive /\ heap'[t].alive /\ heap'[t].gen = heap[t].gen)
                           => \A i \in 1..Len(abs[t]) : Len(abs'[t]) >= i /\ abs'[t][i] = abs[t][i]]_vars
